@@ -213,6 +213,13 @@ func (m *C08Monitor) OnCommit(w *world.World, e *world.CommitEvent) {
 			}
 		}
 		isNotify := strings.Contains(b.Mesg, `"type":"notify"`)
+		if isNotify && b.State == 1 && m.attempted[k] && strings.HasPrefix(e.Owners[0], "EnqueueTasks:") {
+			for _, c := range e.Subs[0].Store.Transaction.Commands {
+				if u := c.UpdateTask; u != nil && u.Id == id && a.State != 8 {
+					w.Violate("C08:notify-not-finished-after-attempt", "notification task %q was handed off (attempt recorded) but the cycle left it in state %d attempt %d instead of finishing it", id, a.State, a.Attempt)
+				}
+			}
+		}
 		if isNotify && b.State == 1 && a.State == 8 {
 			byRoot := false
 			for _, c := range e.Subs[0].Store.Transaction.Commands {
